@@ -308,35 +308,85 @@ structure InsOut (K V : Type) where
   newLeaves : Nat
   newInner : Nat
 
+/-- `slot < leaf->slotuse && key_equal(key, leaf->key(slot))` -/
+def presentAt (es : List (K × V)) (slot : Nat) (k : K) : Bool :=
+  match es[slot]? with
+  | some e => p.eqv k e.1
+  | none => false
+
+/-- `split_leaf_node` followed by the insertion into the half that holds `slot` -/
+def splitLeafInsert (es : List (K × V)) (slot : Nat) (k : K) (v : V) : Option (InsOut K V) :=
+  let mid := es.length / 2
+  let left := es.take mid
+  let right := es.drop mid
+  match left.getLast? with
+  | none => none                                 -- leaf->key(leaf->slotuse - 1) with slotuse = 0
+  | some lastL =>
+    if slot ≥ mid then
+      some { node := .leaf left, split := some (lastL.1, .leaf (insertAt right (slot - mid) (k, v))),
+             inserted := true, leafIdx := 1, slot := slot - mid, newLeaves := 1, newInner := 0 }
+    else
+      let left' := insertAt left slot (k, v)
+      -- "the insert is at the last slot of the old node: the splitkey must be updated"
+      let sk := if slot = left'.length - 1 then k else lastL.1
+      some { node := .leaf left', split := some (sk, .leaf right),
+             inserted := true, leafIdx := 0, slot := slot, newLeaves := 1, newInner := 0 }
+
+/-- the leaf part of `insert_descend` -/
+def leafInsert (es : List (K × V)) (k : K) (v : V) : Option (InsOut K V) :=
+  let slot := findLower p (keysOf es) k
+  if !p.dup && presentAt p es slot k then
+    some { node := .leaf es, split := none, inserted := false, leafIdx := 0, slot := slot, newLeaves := 0, newInner := 0 }
+  else if es.length = p.leafMax then
+    splitLeafInsert es slot k v
+  else
+    some { node := .leaf (insertAt es slot (k, v)), split := none, inserted := true, leafIdx := 0, slot := slot,
+           newLeaves := 0, newInner := 0 }
+
+/-- the split position chosen by `split_inner_node(inner, ..., addslot)` for a node with `n` keys:
+"if the split is uneven and the overflowing item will be put into the larger node, then the
+smaller split node may underflow" -/
+def splitMid (n slot : Nat) : Nat :=
+  if slot ≤ n / 2 ∧ n / 2 > n - (n / 2 + 1) then n / 2 - 1 else n / 2
+
+/-- `split_inner_node` at `mid` followed by the three ways `insert_descend` places
+`(newkey, newchild)` behind child `slot` -/
+def splitInnerAbsorb (l : Nat) (keys : List K) (kids : List (BNode K V)) (slot : Nat) (newkey : K)
+    (newchild : BNode K V) (mid : Nat) : Option (BNode K V × Option (K × BNode K V) × Nat) :=
+  match keys[mid]? with
+  | none => none
+  | some upKey =>
+    let leftKeys := keys.take mid
+    let rightKeys := keys.drop (mid + 1)
+    let leftKids := kids.take (mid + 1)
+    let rightKids := kids.drop (mid + 1)
+    if slot = mid + 1 ∧ mid < rightKeys.length then
+      -- the insert slot is the split place: the insert key becomes the split key
+      match rightKids with
+      | [] => none
+      | c0 :: rest =>
+        some (.inner l (leftKeys ++ [upKey]) (leftKids ++ [c0]), some (newkey, .inner l rightKeys (newchild :: rest)), 1)
+    else if slot ≥ mid + 1 then
+      let s := slot - (mid + 1)
+      some (.inner l leftKeys leftKids,
+            some (upKey, .inner l (insertAt rightKeys s newkey) (insertAt rightKids (s + 1) newchild)), 1)
+    else
+      some (.inner l (insertAt leftKeys slot newkey) (insertAt leftKids (slot + 1) newchild),
+            some (upKey, .inner l rightKeys rightKids), 1)
+
+/-- the inner part of `insert_descend` after the child at `slot` was split into `kids[slot]` and
+`newchild` with separator `newkey` (with `split_inner_node` when the node is full):
+returns the node, its split sibling with the key that moves up, and the number of inner nodes allocated -/
+def innerAbsorb (l : Nat) (keys : List K) (kids : List (BNode K V)) (slot : Nat) (newkey : K) (newchild : BNode K V) :
+    Option (BNode K V × Option (K × BNode K V) × Nat) :=
+  if keys.length = p.innerMax then
+    splitInnerAbsorb l keys kids slot newkey newchild (splitMid keys.length slot)
+  else
+    some (.inner l (insertAt keys slot newkey) (insertAt kids (slot + 1) newchild), none, 0)
+
 /-- `insert_descend(n, key, value, splitkey, splitnode)` -/
 def insertDescend (k : K) (v : V) : Nat → BNode K V → Option (InsOut K V)
-  | _, .leaf es =>
-    let slot := findLower p (keysOf es) k
-    let present := match es[slot]? with
-      | some e => p.eqv k e.1
-      | none => false
-    if !p.dup && present then
-      some { node := .leaf es, split := none, inserted := false, leafIdx := 0, slot := slot, newLeaves := 0, newInner := 0 }
-    else if es.length = p.leafMax then
-      -- split_leaf_node
-      let mid := es.length / 2
-      let left := es.take mid
-      let right := es.drop mid
-      match left.getLast? with
-      | none => none                                 -- leaf->key(leaf->slotuse - 1) with slotuse = 0
-      | some lastL =>
-        if slot ≥ mid then
-          some { node := .leaf left, split := some (lastL.1, .leaf (insertAt right (slot - mid) (k, v))),
-                 inserted := true, leafIdx := 1, slot := slot - mid, newLeaves := 1, newInner := 0 }
-        else
-          let left' := insertAt left slot (k, v)
-          -- "the insert is at the last slot of the old node: the splitkey must be updated"
-          let sk := if slot = left'.length - 1 then k else lastL.1
-          some { node := .leaf left', split := some (sk, .leaf right),
-                 inserted := true, leafIdx := 0, slot := slot, newLeaves := 1, newInner := 0 }
-    else
-      some { node := .leaf (insertAt es slot (k, v)), split := none, inserted := true, leafIdx := 0, slot := slot,
-             newLeaves := 0, newInner := 0 }
+  | _, .leaf es => leafInsert p es k v
   | 0, .inner .. => none
   | h + 1, .inner l keys kids =>
     let slot := findLower p keys k
@@ -353,41 +403,11 @@ def insertDescend (k : K) (v : V) : Nat → BNode K V → Option (InsOut K V)
           some { node := .inner l keys kids1, split := none, inserted := r.inserted, leafIdx := li, slot := r.slot,
                  newLeaves := r.newLeaves, newInner := r.newInner }
         | some (newkey, newchild) =>
-          if keys.length = p.innerMax then
-            -- split_inner_node(inner, splitkey, splitnode, slot)
-            let mid0 := keys.length / 2
-            let mid := if slot ≤ mid0 ∧ mid0 > keys.length - (mid0 + 1) then mid0 - 1 else mid0
-            match keys[mid]? with
-            | none => none
-            | some upKey =>
-              let leftKeys := keys.take mid
-              let rightKeys := keys.drop (mid + 1)
-              let leftKids := kids1.take (mid + 1)
-              let rightKids := kids1.drop (mid + 1)
-              if slot = mid + 1 ∧ mid < rightKeys.length then
-                -- the insert slot is the split place: the insert key becomes the split key
-                match rightKids with
-                | [] => none
-                | c0 :: rest =>
-                  some { node := .inner l (leftKeys ++ [upKey]) (leftKids ++ [c0]),
-                         split := some (newkey, .inner l rightKeys (newchild :: rest)),
-                         inserted := r.inserted, leafIdx := li, slot := r.slot,
-                         newLeaves := r.newLeaves, newInner := r.newInner + 1 }
-              else if slot ≥ mid + 1 then
-                let s := slot - (mid + 1)
-                some { node := .inner l leftKeys leftKids,
-                       split := some (upKey, .inner l (insertAt rightKeys s newkey) (insertAt rightKids (s + 1) newchild)),
-                       inserted := r.inserted, leafIdx := li, slot := r.slot,
-                       newLeaves := r.newLeaves, newInner := r.newInner + 1 }
-              else
-                some { node := .inner l (insertAt leftKeys slot newkey) (insertAt leftKids (slot + 1) newchild),
-                       split := some (upKey, .inner l rightKeys rightKids),
-                       inserted := r.inserted, leafIdx := li, slot := r.slot,
-                       newLeaves := r.newLeaves, newInner := r.newInner + 1 }
-          else
-            some { node := .inner l (insertAt keys slot newkey) (insertAt kids1 (slot + 1) newchild), split := none,
-                   inserted := r.inserted, leafIdx := li, slot := r.slot,
-                   newLeaves := r.newLeaves, newInner := r.newInner }
+          match innerAbsorb p l keys kids1 slot newkey newchild with
+          | none => none
+          | some (node, split, ni) =>
+            some { node := node, split := split, inserted := r.inserted, leafIdx := li, slot := r.slot,
+                   newLeaves := r.newLeaves, newInner := r.newInner + ni }
 
 /-- result of a public mutating call -/
 structure InsResult (K V : Type) where
